@@ -319,6 +319,47 @@ def job_add_trial(job):
     return res, bad
 
 
+def internal_native(ptype, v):
+    if ptype == 'INTEGER':
+        return int(v)
+    if ptype == 'DISCRETE':
+        return float(v)
+    return ('True' if v else 'False') if isinstance(v, bool) else v
+
+
+def job_subspace(job):
+    """get_subspace_deepcopy / subspace: the child registered for the value's internal representation"""
+    p, lo, hi, fv = build_pc(job['pc'])
+    ptype = job['pc']['ptype']
+    ck = dec(job['child_key']) if job.get('child_key') else None
+    if ck is not None:
+        p.subspace(ck).add(pc_lib.ParameterConfig.factory('c', bounds=(0, 1)))
+    v = dec(job['value'])
+    before = {k: list(s.parameter_names) for k, s in p._children.items()}
+    out = outcome(lambda: getattr(p, job['method'])(v))
+    if ptype == 'DOUBLE':
+        if job['method'] == 'subspace':
+            return {'raised': out['raised']}, out['raised'] is None
+        return {'raised': out['raised']}, out['raised'] is not None or list(out['value'].parameter_names) != []
+    mem = member_native(ptype, lo, hi, fv, v)
+    res = {'raised': out['raised'], 'oracle_member': mem, 'children_before': repr(before)}
+    if not mem:
+        return res, out['raised'] is None
+    if out['raised'] is not None:
+        return res, True
+    key = internal_native(ptype, v)
+    want = ['c'] if (ck is not None and internal_native(ptype, ck) == key) else []
+    got = list(out['value'].parameter_names)
+    res.update({'got': got, 'oracle_child_parameters': want})
+    bad = got != want
+    after = {k: list(s.parameter_names) for k, s in p._children.items()}
+    if job['method'] == 'get_subspace_deepcopy':
+        bad = bad or after != before or any(out['value'] is s for s in p._children.values())
+    else:
+        bad = bad or p._children.get(key) is not out['value']
+    return res, bad
+
+
 # ---------------------------------------------------------------------------------------- bounded stand-ins
 def _sub_shapes(depth):
     """shapes of a subspace under one parent value: () | (parent,) | (parent, leaf); parent shapes recursive."""
@@ -350,17 +391,20 @@ def _build(space_selector, shape, path, kind_toggle, registry):
             space_selector.add_float_param(name, 0.0, 1.0)
             registry[name] = ('leaf', None)
             continue
-        # parents alternate between CATEGORICAL, INTEGER and DISCRETE so that every discrete kind is a parent somewhere
-        kind = ('cat', 'int', 'disc')[(len(path) + k + kind_toggle) % 3]
+        # parents alternate between CATEGORICAL, INTEGER, DISCRETE and BOOLEAN so that every discrete kind is a parent somewhere
+        kind = ('cat', 'int', 'disc', 'bool')[(len(path) + k + kind_toggle) % 4]
         if kind == 'cat':
             values = ['a', 'b']
             space_selector.add_categorical_param(name, values)
         elif kind == 'int':
             values = [0, 1]
             space_selector.add_int_param(name, 0, 1)
-        else:
-            values = [1.0, 2.5]
+        elif kind == 'disc':
+            values = [1.0, 2.0]
             space_selector.add_discrete_param(name, values)
+        else:
+            values = ['True', 'False']
+            space_selector.add_bool_param(name)
         kids = {}
         for vi, (val, sub) in enumerate(zip(values, item)):
             sel = space_selector.select(name, [val])
@@ -381,9 +425,22 @@ def _active(names, registry, choice):
     return out
 
 
-def standin_builder(depth=3, limit=None, toggles=(0, 1, 2)):
-    """SequentialParameterBuilder on every conditional space of the bounded family, every choice sequence, dfs and bfs:
-    the visited parameters are exactly the active ones (each once) and the built ParameterDict is the choice."""
+def external_form(kind, v):
+    """the same parent value in the Python type a client naturally supplies: bool for boolean parameters, float for
+    integer parameters, int for (integer-valued) discrete parameters"""
+    if kind == 'bool':
+        return v == 'True'
+    if kind == 'int':
+        return float(v)
+    if kind == 'disc':
+        return int(v)
+    return v
+
+
+def standin_builder(depth=3, limit=None, toggles=(0, 1, 2, 3)):
+    """SequentialParameterBuilder on every conditional space of the bounded family, every choice sequence, dfs and bfs,
+    parent values supplied in their internal and in their external Python types: the visited parameters are exactly the
+    active ones (each once) and the built ParameterDict is the choice."""
     from vizier._src.pyvizier.shared import parameter_iterators as pi
     tops = []
     for p in _parent_shapes(depth):
@@ -403,7 +460,7 @@ def standin_builder(depth=3, limit=None, toggles=(0, 1, 2)):
             registry = {}
             top_names = _build(space.root, top, 'p', toggle, registry)
             spaces += 1
-            for order in ('dfs', 'bfs'):
+            for order, form in (('dfs', 'internal'), ('bfs', 'internal'), ('dfs', 'external'), ('bfs', 'external')):
                 # explore all choice sequences by DFS over decision prefixes
                 todo = [[]]
                 while todo:
@@ -424,13 +481,15 @@ def standin_builder(depth=3, limit=None, toggles=(0, 1, 2)):
                             prefix = prefix + [0] * (k - len(prefix)) + [0]
                         k += 1
                         choice[cfg.name] = v
-                        b.choose_value(v)
+                        b.choose_value(external_form(kind, v) if form == 'external' else v)
                     runs += 1
                     want = _active(top_names, registry, choice)
                     got = {kk: vv.value for kk, vv in b.parameters.items()}
-                    ok = sorted(visited) == sorted(want) and len(set(visited)) == len(visited) and got == choice
+                    given = {kk: (external_form(registry[kk][0], vv) if form == 'external' else vv) for kk, vv in choice.items()}
+                    ok = sorted(visited) == sorted(want) and len(set(visited)) == len(visited) and got == given \
+                        and all(type(got[kk]) is type(given[kk]) for kk in given)
                     if not ok and len(failures) < 5:
-                        failures.append({'top': repr(top), 'toggle': toggle, 'order': order, 'visited': visited, 'active': want,
+                        failures.append({'top': repr(top), 'toggle': toggle, 'order': order, 'values': form, 'visited': visited, 'active': want,
                                          'built': repr(got), 'choice': repr(choice)})
     # the empty space: the walk should visit nothing; recorded separately (known finding if the constructor raises)
     return {'spaces': spaces, 'runs': runs, 'failures': failures, 'depth': depth,
@@ -507,7 +566,7 @@ def findings():
 
 
 JOBS = {'contains': job_contains, 'assert_correct_type': job_assert_correct_type, 'factory': job_factory,
-        'space_add': job_space_add, 'add_param': job_add_param, 'assert_contains': job_assert_contains, 'add_trial': job_add_trial}
+        'space_add': job_space_add, 'add_param': job_add_param, 'assert_contains': job_assert_contains, 'add_trial': job_add_trial, 'subspace': job_subspace}
 
 
 def main(argv):
@@ -515,7 +574,7 @@ def main(argv):
     if argv and argv[0] == 'findings':
         res, bad = findings()
     elif argv and argv[0] == 'standin_builder':
-        res = standin_builder(int(argv[1]) if len(argv) > 1 else 3, None, tuple(int(c) for c in argv[2]) if len(argv) > 2 else (0, 1, 2))
+        res = standin_builder(int(argv[1]) if len(argv) > 1 else 3, None, tuple(int(c) for c in argv[2]) if len(argv) > 2 else (0, 1, 2, 3))
         bad = bool(res['failures'])
     elif argv and argv[0] == 'standin_assert_contains':
         res = standin_assert_contains()
